@@ -26,8 +26,9 @@ func init() {
   container c { leaf a { type string; } leaf n { type int32 { range "min..10"; } } container d { leaf x { type string; } }
     leaf-list ll { type string; } leaf e { type enumeration { enum one; enum two; } } leaf b { type boolean; }
     leaf u { type union { type int32; type string; } } leaf em { type empty; } leaf bits { type bits { bit x; bit y; } }
-    leaf lr { type leafref { path "../a"; } } leaf dec { type decimal64 { fraction-digits 2; } } leaf u64 { type uint64; } }
-  list l { key k; leaf k { type string; } leaf v { type int32; } container m { leaf z { type string; } }
+    leaf lr { type leafref { path "../a"; } } leaf dec { type decimal64 { fraction-digits 2; } } leaf u64 { type uint64; }
+    leaf nk { type int32 { range "1..5 | max"; } } leaf sk { type string { length "min | 4..8"; } } leaf dk { type decimal64 { fraction-digits 2; range "min | 0..1"; } } leaf uk { type uint8 { range "max"; } } }
+  list l { key k; leaf k { type string; } leaf v { type int32; } leaf-list tags { type string; } container m { leaf z { type string; } }
     list n { key "a b"; leaf a { type string; } leaf b { type int32; } leaf w { type string; } } }
   list i { key k; leaf k { type int32; } leaf v { type string; } }
   choice ch { case x { leaf x1 { type string; } } case y { container y1 { leaf q { type string; } } } }
@@ -46,7 +47,7 @@ type c13Case struct {
 	To   int    `json:"to"`
 }
 
-const c13Stored = `{"top":"t","c":{"a":"a","n":5,"d":{"x":"x"},"ll":["p","q"],"e":"one","b":true,"u":7,"bits":"x","lr":"a","dec":1.5,"u64":"9"},"l":[{"k":"a","v":1,"m":{"z":"z"},"n":[{"a":"p","b":1,"w":"w"}]},{"k":"b"}],"i":[{"k":1,"v":"one"}],"x1":"x"}`
+const c13Stored = `{"top":"t","c":{"a":"a","n":5,"d":{"x":"x"},"ll":["p","q"],"e":"one","b":true,"u":7,"bits":"x","lr":"a","dec":1.5,"u64":"9"},"l":[{"k":"a","v":1,"tags":["t1","t2"],"m":{"z":"z"},"n":[{"a":"p","b":1,"w":"w"}]},{"k":"b"}],"i":[{"k":1,"v":"one"}],"x1":"x"}`
 
 func (p *c13) Bounds(tier string) map[string]interface{} {
 	return map[string]interface{}{"json_kinds": len(c13JSONKinds), "positions": len(c13Positions), "path_segments": len(c13Segs), "path_length": 3, "xpath_tokens": len(c13XTokens), "xpath_length": c13XLen(tier), "query_values": len(c13QVals), "setvalue_values": "see c13GoValues"}
@@ -63,14 +64,14 @@ var c13JSONKinds = []string{`null`, `true`, `0`, `-1`, `1.5`, `1e99`, `"s"`, `""
 
 // positions: path of member names into the valid document (list entries by index)
 // (x1 and y1 are members of two cases of one choice: never both in one document)
-var c13Positions = []string{"top", "c", "c/a", "c/n", "c/d", "c/d/x", "c/ll", "c/e", "c/b", "c/u", "c/em", "c/bits", "c/lr", "c/dec", "c/u64", "l", "l/0", "l/0/k", "l/0/m", "l/0/n", "l/0/n/0", "l/0/n/0/b", "i", "i/0/k", "x1", "y1", "zz", "c/zz", "l/0/zz", "zz:top", "req:top", "act", "ev"}
+var c13Positions = []string{"top", "c", "c/a", "c/n", "c/d", "c/d/x", "c/ll", "c/e", "c/b", "c/u", "c/em", "c/bits", "c/lr", "c/dec", "c/u64", "c/nk", "c/sk", "c/dk", "c/uk", "l", "l/0", "l/0/k", "l/0/m", "l/0/n", "l/0/n/0", "l/0/n/0/b", "i", "i/0/k", "x1", "y1", "zz", "c/zz", "l/0/zz", "zz:top", "req:top", "act", "ev"}
 
 var c13Segs = []string{"c", "d", "a", "zz", "l", "l=a", "l=zz", "l=a,b", "l=", "i=1", "i=x", "i=1.5", "i=99999999999", "c=a", "top", "top=a", "act", "ev", "..", ".", "", "%zz", "%2F", "req:c", "zz:c", ":", "=", ",", "l==a", "n=p,1", "n=p", "n=p,x", "m", "x1", "y1", "ch", "x", "?", "?depth=1", "?depth=x", "#", "ll", "ll=p", "e", "act/input", "lr"}
 
 var c13QNames = []string{"depth", "content", "fields", "fc.xfields", "with-defaults", "fc.range", "fc.max-node-count", "where", "filter", "zz"}
 var c13QVals = []string{"", "1", "-1", "99999999999999999999", "a", "a/", "/", "(", ")", ";", "!", "!-", "l!1-", "l!x-y", "l!1-2", "((", "a(b", "a;b)", "c/d", "c(a;d/x)", "l/n", "zz", "%zz", "a=1", "k='a'", "k=", "='a'", "config", "trim"}
 
-var c13XTokens = []string{"a", "k", "v", "zz", "c", "d", "l", "/", ":", "=", "!=", "<", "<=", ">", ">=", "10", "-10", "1.5", "'lit'", "'", "(", ")", "[", "]", "*", ".", "..", " "}
+var c13XTokens = []string{"a", "k", "v", "tags", "zz", "c", "d", "l", "/", ":", "=", "!=", "<", "<=", ">", ">=", "10", "-10", "1.5", "'lit'", "'", "(", ")", "[", "]", "*", ".", "..", " "}
 
 func c13Words(alpha []string, maxLen int, sep string) []string {
 	out := []string{""}
@@ -279,7 +280,18 @@ func c13Env(impl string) (*meta.Module, *store.Ref, *node.Browser) {
 	}
 	r := store.NewRef(t)
 	base := r.Node()
-	if impl != "" && impl != "ref" {
+	if impl == "json-reader" || impl == "xml-reader" {
+		// the library's document readers serve the stored tree (read-side requests only)
+		var err error
+		if impl == "json-reader" {
+			base, err = nodeutil.ReadJSON(c13Stored)
+		} else {
+			base, err = nodeutil.ReadXMLDoc(strings.NewReader("<req xmlns=\"urn:req\">" + xmlBody(m.DataDefinitions(), t) + "</req>"))
+		}
+		if err != nil {
+			panic("harness: reader over the stored tree: " + err.Error())
+		}
+	} else if impl != "" && impl != "ref" {
 		// a library node over Go maps, loaded directly
 		st := store.New(impl)
 		if !st.(interface {
@@ -346,6 +358,12 @@ func (p *c13) Cases(tier string, emit func(interface{})) {
 				kk = fmt.Sprintf("xpath%d", c13XLen(tier))
 			}
 			emit(c13Case{Kind: kk, From: from, To: to})
+			if k == "path" || k == "query" || k == "xpath" {
+				// navigation and filters over the library's document readers as the data tree
+				for _, st := range []string{"json-reader", "xml-reader"} {
+					emit(c13Case{Store: st, Kind: kk, From: from, To: to})
+				}
+			}
 			if k == "json-kind" || k == "json-mut" || k == "xml-mut" {
 				// the same edit requests against the library's own nodes over Go maps
 				for _, st := range []string{"reflect-map", "node-map"} {
@@ -655,7 +673,7 @@ type c13SV struct {
 
 func c13SetValueCases() []c13SV {
 	var out []c13SV
-	leaves := map[string]string{"top": "string", "c/n": "int32-range", "c/ll": "string-list", "c/e": "enumeration", "c/b": "boolean", "c/u": "union", "c/em": "empty", "c/bits": "bits", "c/lr": "leafref", "c/dec": "decimal64", "c/u64": "uint64", "l=a/k": "key", "i=1/k": "int-key"}
+	leaves := map[string]string{"top": "string", "c/n": "int32-range", "c/ll": "string-list", "c/e": "enumeration", "c/b": "boolean", "c/u": "union", "c/em": "empty", "c/bits": "bits", "c/lr": "leafref", "c/dec": "decimal64", "c/u64": "uint64", "c/nk": "int32-keyword-range", "c/sk": "string-keyword-length", "c/dk": "decimal64-keyword-range", "c/uk": "uint8-keyword-range", "l=a/k": "key", "i=1/k": "int-key"}
 	var ls []string
 	for l := range leaves {
 		ls = append(ls, l)
